@@ -111,18 +111,18 @@ public:
 
     void bvisit(const Symbol &x)
     {
-        for (unsigned i = 0; i < symbols.size(); ++i) {
-            if (eq(x, *symbols[i])) {
-                result_ = [=](const T *x) { return x[i]; };
-                return;
-            }
-        }
         auto it = cse_intermediate_fns_map.find(x.rcp_from_this());
         if (it != cse_intermediate_fns_map.end()) {
             auto index = it->second;
             T *cse_intermediate_result = &(cse_intermediate_results[index]);
             result_ = [=](const T *x) { return *cse_intermediate_result; };
             return;
+        }
+        for (unsigned i = 0; i < symbols.size(); ++i) {
+            if (eq(x, *symbols[i])) {
+                result_ = [=](const T *x) { return x[i]; };
+                return;
+            }
         }
         throw SymEngineException("Symbol not in the symbols vector.");
     };
